@@ -106,7 +106,8 @@ C07_AuthoritySplit(o) ==
 \* authority with a default port dropped (the one normalisation str() documents)
 DropDefaultPort(scheme, A) ==
   LET sa == SplitAuthority(A) dp == DefaultPort(scheme) IN
-  IF sa.hasPort /\ dp # None /\ AllDigits(sa.port) /\ Len(sa.port) <= 5 /\ DigitsVal(sa.port) = dp[1]
+  IF sa.hasPort /\ dp # None /\ (\/ (AllDigits(sa.port) /\ Len(LStripSet(sa.port, {48})) <= 5 /\ DigitsVal(LStripSet(sa.port, {48})) = dp[1])
+                                \/ (sa.port # <<>> /\ ~AllDigits(sa.port)))      \* gray spelling ("+80", " 80"): unspecified
   THEN Upto(A, Len(A) - Len(sa.port) - 1) ELSE A
 C07_Recompose(o) ==
   Ok(o.str) =>
@@ -348,7 +349,8 @@ NewSegs(vs) == Flat([i \in 1..Len(vs) |->
                  LET sg == Split(vs[i], SLASH) IN IF i < Len(vs) /\ Last(sg) = <<>> THEN Front(sg) ELSE sg])
 PathEq(a, b) == a = b \/ {a, b} = {<<>>, <<SLASH>>}
 C15_Expected(act, args, S, O) ==
-  CASE act = "build" -> (("path" \in DOMAIN args.kw /\ ~HasSurrogate(args.kw.path)) =>
+  \* ("the rooted path that was supplied": a rootless path under an authority is outside the clause)
+  CASE act = "build" -> (("path" \in DOMAIN args.kw /\ ~HasSurrogate(args.kw.path) /\ args.kw.path # <<>> /\ args.kw.path[1] = SLASH) =>
            (Ok(O.path) /\ PathEq(V(O.path), RemoveDotSegments(args.kw.path))))
     [] act = "with_path" -> ((~args.encoded /\ ~HasSurrogate(args.v)) =>
            (Ok(O.path) /\ PathEq(V(O.path), RemoveDotSegments(Rooted(args.v)))))
